@@ -65,7 +65,7 @@ func TestC15(t *testing.T) {
 			if s.alive {
 				if s.clients < maxClients {
 					for j := 0; j < s.clients; j++ {
-						add(revent{name: fmt.Sprintf("A(%d)", j), ops: []string{fmt.Sprintf("reattach:%d", j), "start", "client", "dispense"}, expect: []string{"ok", "ok", "ok", "ok"}},
+						add(revent{name: fmt.Sprintf("A(%d)", j), ops: []string{fmt.Sprintf("reattach:%d", j), "start", "client", "sameclient?", "dispense"}, expect: []string{"ok", "ok", "ok", "same", "ok"}},
 							rstate{alive: true, val: s.val, clients: s.clients + 1})
 					}
 				}
@@ -97,22 +97,27 @@ func TestC15(t *testing.T) {
 	var hs []hist
 	slow := 0
 	for _, proto := range []string{"netrpc", "grpc"} {
-		for _, h := range all {
-			var ops, names []string
-			for _, e := range h.events {
-				ops = append(ops, e.ops...)
-				names = append(names, e.name)
+		for _, hostVers := range [][]int{nil, {2}} {
+			for _, h := range all {
+				if hostVers != nil && len(h.events) > 3 {
+					continue // hosts that also configure VersionedPlugins: the shorter histories
+				}
+				var ops, names []string
+				for _, e := range h.events {
+					ops = append(ops, e.ops...)
+					names = append(names, e.name)
+				}
+				if h.st.alive {
+					ops = append(ops, "kill:0")
+				}
+				cells = append(cells, Cell{
+					Name:   fmt.Sprintf("%s host-versions=%v history=[%s]", proto, hostVers, strings.Join(names, " ")),
+					Plugin: PluginConf{CookieKey: cookieKey, CookieValue: cookieVal, Legacy: 1, LegacyProto: proto, GRPCServer: true, TLS: "none"},
+					Host:   HostConf{Allowed: []string{"netrpc", "grpc"}, TLS: "none", Launch: "cmd", Legacy: 1, Versions: hostVers},
+					Ops:    ops,
+				})
+				hs = append(hs, h)
 			}
-			if h.st.alive {
-				ops = append(ops, "kill:0")
-			}
-			cells = append(cells, Cell{
-				Name:   fmt.Sprintf("%s history=[%s]", proto, strings.Join(names, " ")),
-				Plugin: PluginConf{CookieKey: cookieKey, CookieValue: cookieVal, Legacy: 1, LegacyProto: proto, GRPCServer: true, TLS: "none"},
-				Host:   HostConf{Allowed: []string{"netrpc", "grpc"}, TLS: "none", Launch: "cmd", Legacy: 1},
-				Ops:    ops,
-			})
-			hs = append(hs, h)
 		}
 	}
 	// a plugin whose process needs 20 s to exit after the shutdown request (cleanup after Serve returned): Kill on a
@@ -148,7 +153,7 @@ func TestC15(t *testing.T) {
 	// test mode: Kill on the reattached client must leave the in-process server serving
 	for _, proto := range []string{"netrpc", "grpc"} {
 		for _, ops := range [][]string{
-			{"testserve:" + proto, "treattach", "start", "client", "dispense", "set:7", "kill", "closed?", "treattach", "start", "client", "dispense", "get", "kill", "cancel"},
+			{"testserve:" + proto, "treattach", "start", "client", "sameclient?", "dispense", "set:7", "kill", "closed?", "treattach", "start", "client", "dispense", "get", "kill", "cancel"},
 			{"testserve:" + proto, "treattach", "start", "client", "dispense", "set:7", "treattach", "start", "client", "dispense", "get", "kill:0", "get", "closed?", "cancel"},
 			{"testserve:" + proto, "cancel"},
 			// reattach after the test-mode server's context was cancelled: nothing listens, the pid (our own) is alive
@@ -205,6 +210,8 @@ func TestC15(t *testing.T) {
 						bad("%s: %s succeeded on a dead plugin (value %s)", e.name, o.Op, o.Val)
 					case want == "notfound" && !strings.Contains(o.Err, "ErrProcessNotFound"):
 						bad("%s: reattach after death gave %q, expected the process-not-found error", e.name, o.Err)
+					case want == "same" && (o.Err != "" || o.Val != "same"):
+						bad("%s: two Client() calls on the reattached client returned %s protocol clients (%s)", e.name, o.Val, o.Err)
 					case want == "true" && o.Val != "true":
 						bad("%s: plugin process still alive 10 s after Kill", e.name)
 					case strings.HasPrefix(want, "val="):
@@ -234,6 +241,9 @@ func TestC15(t *testing.T) {
 				}
 				if o.Err != "" {
 					bad("test mode: %s failed: %s", o.Op, o.Err)
+				}
+				if o.Op == "sameclient?" && o.Val != "same" {
+					bad("test mode: two Client() calls on the reattached client returned %s protocol clients", o.Val)
 				}
 				if o.Op == "fakekills?" && o.Val != "0" {
 					bad("test mode: Kill on the reattached client asked the runner to kill the serving process (%s times)", o.Val)
